@@ -338,8 +338,7 @@ Proof.
   intros Hr Hl He Hc Ha Hser Hal Hstep. destruct (svc_by_cookie s sc) as [[k sv]|] eqn:Es.
   - pose proof (svc_by_cookie_Some _ _ _ _ Es) as [Hk _].
     destruct (reach_owner s k sv Hr Hk) as (ob & cso & _ & Ho & Hcso).
-    pose proof (pick_serial_legal s i Hl) as Hp.
-    destruct (match i_bserial i with Some b => (b, next s) | None => (4294967296 + next s, next s + 1) end) as [b0 nxt0].
+    destruct (pick_serial_legal s i (proj1 (iv_cb _ _ _ _ _ (reachable_inv s Hr))) Hl) as (b0 & nxt0 & Hp & _).
     rewrite (call_live s c cs serial sc fn v (i_fresh i) (i_bserial i) k sv (o_owner ob) cso _ _
                Hc Es Ho Hcso (Hal _ _ _ _ eq_refl Ho Hcso) Hp Hser) in Hstep.
     injection Hstep as <- <-. split.
